@@ -300,7 +300,9 @@ class RenderTag(Tag):
         if is_token_type(name_token, TokenType.SINGLE_QUOTE_STRING) or is_token_type(
             name_token, TokenType.DOUBLE_QUOTE_STRING
         ):
-            name = StringLiteral(token=name_token, value=name_token.value)
+            name = StringLiteral(
+                token=name_token, value=parse_string_or_identifier(name_token)
+            )
         else:
             raise LiquidSyntaxError(
                 "expected the name of a template to render as a string literal, "
